@@ -200,6 +200,9 @@ Fields render_snapshot(const dj::track_snapshot& s)
     return f;
 }
 
+static bool s_nonstd_seen = false;
+static std::string s_nonstd_where;
+
 template <typename Fn>
 static std::string guard_str(Fn&& fn)
 {
@@ -213,8 +216,18 @@ static std::string guard_str(Fn&& fn)
     }
     catch (...)
     {
+        s_nonstd_seen = true;
         return "!<non-std>";
     }
+}
+
+static void flush_nonstd(World& w, const char* where)
+{
+    if (!s_nonstd_seen)
+        return;
+    s_nonstd_seen = false;
+    w.report(w.safety_owner(), w.safety_owner() + "|" + where + "|" + w.fam() + "|non-std-exception",
+             std::string("an observing call on a ") + where + " threw something not derived from std::exception");
 }
 
 TrackObs World::observe_track(dj::track& t)
@@ -235,7 +248,7 @@ TrackObs World::observe_track(dj::track& t)
     catch (...)
     {
         o.snap.emplace_back("!", "<non-std>");
-        report("C15", "C15|snapshot|" + fam() + "|non-std-exception", "snapshot() threw a non-std exception");
+        report(safety_owner(), safety_owner() + "|snapshot|" + fam() + "|non-std-exception", "snapshot() threw a non-std exception");
     }
     auto g = [&](const char* name, auto&& fn) { o.get.emplace_back(name, guard_str(fn)); };
     g("album", [&] { return ropt_s(t.album()); });
@@ -284,6 +297,7 @@ TrackObs World::observe_track(dj::track& t)
             std::sort(ids.begin(), ids.end());
             return ids_str(ids);
         });
+    flush_nonstd(*this, "track");
     return o;
 }
 
@@ -324,6 +338,7 @@ CrateObs World::observe_crate(dj::crate& c)
         o.tracks_ok = true;
         return ids_str(o.tracks_v);
     });
+    flush_nonstd(*this, "crate");
     return o;
 }
 
@@ -433,9 +448,10 @@ FullObs World::observe()
     }
     for (auto& l : o.name_lookups)
         o.lookups.emplace_back(l.kind + ":" + std::to_string(l.crate) + ":" + rs(l.name), l.result);
+    flush_nonstd(*this, "database");
     if (g_taps.tick_watchdog_fired)
     {
-        report("C15", "C15|observe|" + fam() + "|sql-watchdog",
+        report(safety_owner(), safety_owner() + "|observe|" + fam() + "|sql-watchdog",
                "an observing call exceeded the VM tick budget (non-termination)");
         stop = true;
         stop_reason = "sql watchdog fired during observation";
